@@ -4,6 +4,7 @@ mod alloc;
 mod canon;
 mod cases;
 mod master;
+mod paths;
 mod query;
 mod ser;
 mod settings;
@@ -33,6 +34,10 @@ fn unhex(s: &str) -> Vec<u8> {
 }
 
 fn main() {
+    if std::env::args().any(|a| a == "--dump-games") {
+        paths::dump_games();
+        return;
+    }
     // quiet panics: the message goes to stderr only when asked
     let verbose = std::env::var("VERIF_PANIC_MSG").is_ok();
     std::panic::set_hook(Box::new(move |info| {
